@@ -60,7 +60,7 @@ class RecPool(sprocess.EventListenerPool):
 
 class World(object):
     def __init__(self, pool_cfgs, handler_kind=0, gserial=-1):
-        """pool_cfgs: list of (pool_events class-name list, buffer_size, nlisteners, initial pool serial, priority)"""
+        """pool_cfgs: list of (pool_events class-name list, buffer_size, nlisteners, initial pool serial, priority[, process-name prefix])"""
         self.options = env.fresh_world()
         sprocess.GlobalSerial.serial = gserial
         self.effs = []
@@ -78,10 +78,16 @@ class World(object):
         events.subscribe(events.Event, self._on_event)
         events.subscribe(events.EventRejectedEvent, self._on_rejected)
         self.pools = []
-        for k, (subs, bufsize, nl, pserial, prio) in enumerate(pool_cfgs):
+        for k, c in enumerate(pool_cfgs):
+            subs, bufsize, nl, pserial, prio = c[:5]
+            # optional 6th field: process-name prefix shared with other pools (names are unique per group
+            # only).  Pools with shared names get distinct process priorities, pools with distinct names
+            # share the priority 999, so that each way of confusing listeners of two pools occurs alone.
+            prefix = c[5] if len(c) > 5 and c[5] else None
             classes = [getattr(events, n) for n in subs]
             p = env.Pool(self.options, 'p%d' % k, nl, buffer_size=bufsize, pool_events=classes, handler=handler,
-                         priority=prio, proc_priority=999, group_class=RecPool)
+                         priority=prio, proc_priority=(800 + k) if prefix else 999, group_class=RecPool,
+                         proc_prefix=prefix)
             p.group.rec = self._on_accept
             p.group.index = k
             p.group.serial = pserial
